@@ -118,6 +118,8 @@ func (c *SpecCtx) resolveType(te *TypeExpr) types.Type {
 		return types.NewPointer(c.resolveType(te.Elem))
 	case "slice":
 		return types.NewSlice(c.resolveType(te.Elem))
+	case "map":
+		return types.NewMap(c.resolveType(te.Params[0]), c.resolveType(te.Elem))
 	case "func":
 		var ps []*types.Var
 		for _, p := range te.Params {
